@@ -24,7 +24,12 @@ def binop(I, op, a, b, w, signed):
     """returns (result, overflow-flag) ; overflow flag is an abstract bool"""
     m = M(w)
     base = op.replace('WithOverflow', '').replace('Unchecked', '')
-    term = T.op(base, w, a.term, b.term) if (T.ENABLED and a.term is not None and b.term is not None) else None
+    term = None
+    if T.ENABLED and a.term is not None and b.term is not None:
+        tname = base
+        if (signed or a.signed) and base in ('Shr', 'Div', 'Rem', 'Lt', 'Le', 'Gt', 'Ge'):
+            tname = 'S' + base      # arithmetic shift / signed division / signed order are different functions
+        term = T.op(tname, w, a.term, b.term)
     if base in ('Eq', 'Ne', 'Lt', 'Le', 'Gt', 'Ge'):
         return _cmp(base, a, b, signed, term), FALSE
     if base == 'Cmp':
@@ -284,6 +289,8 @@ def unop(I, op, a, is_bool=None):
     if is_bool is None:
         is_bool = (a.w == 8 and a.kz == 0xFE) or (a.w == 8 and a.hi <= 1 and a.kz & 0xFE == 0xFE)
     term = T.op(op, w, a.term) if (T.ENABLED and a.term is not None) else None
+    if op == 'Not' and is_bool and term is not None:
+        term = T.op('BitXor', 8, a.term, T.const(8, 1))
     if op == 'Not':
         if is_bool:
             if a.const is not None:
@@ -382,7 +389,8 @@ def cast(I, st, kind, a, src_ty, dst_ty):
                         q.off += q.elem.const * es
                     else:
                         q.path = q.path + ((('i', q.elem.const),) if q.elem.const is not None else (('i?', q.elem),))
-                q.start = I.usize(0)
+                if q.length is None or q.start is None:
+                    q.start = I.usize(0)       # (a windowed array view keeps its start)
                 q.elem = None
                 q.length = I.usize(sp['n'])
                 q.view = None
